@@ -50,8 +50,17 @@ T3 = [
  ("C31","m1","collect/cache/demo_m1_test.go",{"C31":"kept_decision_forgotten","C01":"trace_decided_twice"},"caught","","C31-m3"),
  ("C31","m2","collect/cache/demo_m2_test.go",{"C31":"dropped_decision_not_answered_dropped"},"missed, then caught after strengthening","the workload never rotated the drop filter (probe filter_rotated stuck at 0): fill bursts now reach rotations, lookups come after the recent-drop TTL, and the model follows the two filter generations (a record routed into the next generation outlives one rotation)","C31-m4"),
 ]
+T4 = [
+ # wave 4 (/tmp/mutout4): C04, C13, C15, C27 agents and C12 m2, C19 m2 repeated earlier changes (not stored)
+ ("C12","m1","sample/shared_concurrent_demo_test.go",{"C12":"identical_definitions_not_shared"},"missed, then caught after strengthening","new schedule: the Metrics double given to the sampler factory stalls a worker inside the creation of a shared dynsampler (at the registration of its metrics); a second worker is ticked into the creation of the same sampler; the first goes on","C12-m3"),
+ ("C17","m1","sharder/demo_test.go",{"C17":"nodes_disagree_on_owner"},"caught","","C17-m3"),
+ ("C17","m2","internal/peer/demo_test.go",{"C17":"owner_not_a_peer","C18":"peer_entry_expired_early"},"caught","","C17-m4"),
+ ("C19","m1","route/zz_demo_c19_test.go",{"C19":"event_handled_more_than_once"},"caught","","C19-m3"),
+]
 if os.environ.get("WAVE") == "3":
     T = T3
+if os.environ.get("WAVE") == "4":
+    T = T4
 for row in T:
     id_, m, dest, caught, first, strength = row[:6]
     stored = row[6] if len(row) > 6 else f"{id_}-{m}"
